@@ -46,6 +46,7 @@ QUICK_RUNS = {
     "C09": 30000,
     "C10": 30000,
     "C11": 30000,
+    "C15": 30000,
 }
 THOROUGH_BATCH = 24000
 MAX_REPORT = 4
